@@ -827,6 +827,7 @@ class _FunctionInformationCollector(ast.RopeNodeVisitor):
         self.nonlocals_ = OrderedSet()
         self.surrounded_by_loop = 0
         self.loop_depth = 0
+        self.loop_preread = OrderedSet()
 
     def _read_variable(self, name, lineno):
         if self.start <= lineno <= self.end:
@@ -836,6 +837,9 @@ class _FunctionInformationCollector(ast.RopeNodeVisitor):
         if self.end < lineno:
             if name not in self.postwritten:
                 self.postread.add(name)
+        if lineno < self.start and self.loop_depth > 0:
+            # in a loop around the region: it is read again after the region
+            self.loop_preread.add(name)
 
     def _written_variable(self, name, lineno):
         if self.start <= lineno <= self.end:
@@ -843,7 +847,9 @@ class _FunctionInformationCollector(ast.RopeNodeVisitor):
                 self.maybe_written.add(name)
             else:
                 self.written.add(name)
-            if self.loop_depth > 0 and name in self.read:
+            if self.loop_depth > 0 and (
+                name in self.read or name in self.loop_preread
+            ):
                 self.postread.add(name)
         if self.start > lineno:
             self.prewritten.add(name)
@@ -1015,12 +1021,14 @@ class _FunctionInformationCollector(ast.RopeNodeVisitor):
 
     @contextmanager
     def _handle_loop_context(self, node):
-        if node.lineno < self.start:
+        around_the_region = node.lineno < self.start <= node.end_lineno
+        if around_the_region:
             self.loop_depth += 1
         try:
             yield
         finally:
-            self.loop_depth -= 1
+            if around_the_region:
+                self.loop_depth -= 1
 
 
 def _get_argnames(arguments):
